@@ -35,6 +35,12 @@ pub mod verif_std {
         [<Vec<T, A> as std::iter::Extend<&'a T>>::extend] (v: &mut Vec<T, A>, i: I)
         ensures final(v)@ == old(v)@ + iter_seq::<T, I>(i);
 
+    // `v.extend(o.iter().cloned())` (per-item rewrite): appends the elements of o (Clone is the identity in specifications)
+    #[verifier::external_body]
+    pub fn verif_extend_cloned<T: Clone>(v: &mut Vec<T>, o: &Vec<T>)
+        ensures final(v)@ == old(v)@ + o@
+    { v.extend(o.iter().cloned()) }
+
     pub broadcast axiom fn iter_seq_vec<T>(v: Vec<T>)
         ensures #[trigger] iter_seq::<T, Vec<T>>(v) == v@;
     pub broadcast axiom fn iter_seq_arr4(v: [u8; 4])
